@@ -245,10 +245,14 @@ class SInt:
     def __ge__(self, o): return self._cmp(o, lambda a, b: a >= b)
 
     def __eq__(self, o):
+        if getattr(o, "_sym_number", False):
+            return NotImplemented           # let the other symbolic number kind decide
         r = self._cmp(o, lambda a, b: a == b)
         return False if r is NotImplemented else r
 
     def __ne__(self, o):
+        if getattr(o, "_sym_number", False):
+            return NotImplemented
         r = self._cmp(o, lambda a, b: a != b)
         return True if r is NotImplemented else r
 
